@@ -174,6 +174,21 @@ func assumptionsOf(prop string) []string {
 }
 
 var rules = map[string]string{
+	"C01": "cases = seeded scenarios (container config x bars x client programs x director; H(VERIF_SEED, property, part, index)) executed against the real library in worker children with hook-driven delays/triggers and GOMAXPROCS cycled over the part's list; parts mixed / nq (more bars than the heap manager's queue) / big (130-200 bars) / err (render faults). Decided per scenario by the stuck-state certificate, the spin rule and the bounded-progress rule. Non-trivial = at least two seeded delays were applied to library goroutines, or a detached push occurred, or the scenario has more bars than queue slots. distinct = distinct interleaving signatures (hash of the order of hm.req / flush.bar / bar.exit / add / serve.done / detached-push hook events) among the non-trivial scenarios",
+	"C02": "cases = seeded scenarios (container config x bars x client programs x director; H(VERIF_SEED, property, part, index)) executed against the real library in worker children with hook-driven delays/triggers and GOMAXPROCS cycled over the part's list; call histories over the whole public surface with the done event (natural end, cancel, Shutdown) placed by step or hook trigger; parts mixed / nq / err / waiters. Decided by crash attribution of the worker child, the stuck-state certificate, well-formed results of Add/Write, and assertions on calls issued after Wait returned. Non-trivial = at least one client call's [invoke, return] interval contains the serve.done event, or the scenario issues the late-call battery after Wait. distinct = distinct interleaving signatures among the non-trivial scenarios",
+	"C03": "cases = seeded scenarios (container config x bars x client programs x director; H(VERIF_SEED, property, part, index)) executed against the real library in worker children with hook-driven delays/triggers and GOMAXPROCS cycled over the part's list; auto-refresh / pty containers with last updates racing ticks and Wait, endings natural / cancel / Shutdown. The last frame is parsed and compared per bar with getters read after Wait and with the bar's spec; no output event may be stamped after Wait's return. Non-trivial = some bar has at most three terminal frames before the end (it became terminal within the last cycles) or the scenario ends by cancel/Shutdown. distinct = distinct interleaving signatures among the non-trivial scenarios",
+	"C04": "cases = seeded scenarios (container config x bars x client programs x director; H(VERIF_SEED, property, part, index)) executed against the real library in worker children with hook-driven delays/triggers and GOMAXPROCS cycled over the part's list; parts mem (in-memory writer) / pty (real pseudo terminal, rows 1-24 x cols 20-200) / none (no refresh) / delay. Every frame is replayed through the terminal emulator and the tape invariant (persisted lines append-only ++ this frame's rows, nothing in scrollback, no autowrap, cursor position) is checked after each. Non-trivial = two consecutive frames differ in row count, or (pty) a frame reaches the usable terminal height; for part none: the container has at least one bar. distinct = distinct interleaving signatures among the non-trivial scenarios",
+	"C05": "cases = seeded scenarios (container config x bars x client programs x director; H(VERIF_SEED, property, part, index)) executed against the real library in worker children with hook-driven delays/triggers and GOMAXPROCS cycled over the part's list; Add from several clients while rendering, completion, abort with/without drop, removal, pop, queue-after, n > q; parts mixed / nq / err / queue. Per frame: one row group per bar, no unknown id; per bar: contiguous interval of frames, prompt first appearance by hook timestamps, leaves only when terminal and of a leaving kind, render counter strictly newer; notifier list vs last frame. Non-trivial = the set of displayed bars changed in at least two frames (err part: more than one bar). distinct = distinct interleaving signatures among the non-trivial scenarios",
+	"C06": "cases = seeded scenarios (container config x bars x client programs x director; H(VERIF_SEED, property, part, index)) executed against the real library in worker children with hook-driven delays/triggers and GOMAXPROCS cycled over the part's list; parts manual (change -> refresh -> read frame) / auto (concurrent changes) / pop. Every frame must be sorted under some assignment of applied-or-ambiguous priority values; successor rank; pop order by finishing cycle. Non-trivial = at least two frames were order-checked and the scenario has a priority update, a pop event or more than two bars. distinct = distinct interleaving signatures among the non-trivial scenarios",
+	"C10": "part lin: cases = seeded scenarios (container config x bars x client programs x director; H(VERIF_SEED, property, part, index)) executed against the real library in worker children with hook-driven delays/triggers and GOMAXPROCS cycled over the part's list; 2-6 clients x 4-12 operations on 1-3 shared bars, recorded at the client boundary {client, op, args, invoke, result, return} with one logical clock, checked per bar by porcupine against the Appendix-B machine (non-deterministic after the terminal transition). Non-trivial = at least two operations of different clients on one bar overlap in time; distinct = distinct interleaving signatures. Parts race*: worker built with -race (hooks and logical clock off), scenario families of C01/C02/C13/C14/C15 plus a getter-hammering family; decided by the race detector's reports (counted from GORACE log files, deduplicated by library function pair); non-trivial = at least two client goroutines; distinct = distinct scenario seeds",
+	"C11": "cases = seeded scenarios (container config x bars x client programs x director; H(VERIF_SEED, property, part, index)) executed against the real library in worker children with hook-driven delays/triggers and GOMAXPROCS cycled over the part's list; histories that cross the terminal transition and keep going (Abort at current = total, increments after Abort, cancel placed by trigger at bar.trigger / flush.bar / bar.exit, reads before/during/after the bar's shutdown). Per bar a flag monitor is fed by every client read, every marker row and the post-Wait getters. Non-trivial = for some bar a true flag was observed and the bar has more than two observations (the monitor saw it before and after the transition). distinct = distinct interleaving signatures among the non-trivial scenarios",
+	"C12": "cases = seeded scenarios (container config x bars x client programs x director; H(VERIF_SEED, property, part, index)) executed against the real library in worker children with hook-driven delays/triggers and GOMAXPROCS cycled over the part's list; 2-12 bars with 0-3 synchronised + plain decorators per side in every mix, membership changes between frames, n > q. Field extents are recovered from the rows; the common width of each column must equal the maximum need over the bars shown in that frame. Non-trivial = at least four synchronised fields were checked over at least two frames. distinct = distinct interleaving signatures among the non-trivial scenarios",
+	"C13": "cases = seeded scenarios (container config x bars x client programs x director; H(VERIF_SEED, property, part, index)) executed against the real library in worker children with hook-driven delays/triggers and GOMAXPROCS cycled over the part's list; 1-8 writer goroutines with unique payloads (buffers overwritten right after Write returns) interleaved with render cycles, completion and shutdown; parts mixed / err. Each accepted payload must occur exactly once, unmodified, above the rows of its frame, in an order consistent with the call intervals, by the last frame. Non-trivial = a Write overlapped a render cycle or the done event, or more than three texts were located. distinct = distinct interleaving signatures among the non-trivial scenarios",
+	"C14": "fault sites = {cancel, Shutdown} placed by trigger at hook point x occurrence (add, bar.exit, bar.render.terminal, bar.trigger, dist.collected, early.refresh, flush.bar, flush.write, hm.push, hm.req, render.begin/requested/end; occurrences 1-4) and by step index of the client history; cases = seeded scenarios (container config x bars x client programs x director; H(VERIF_SEED, property, part, index)) executed against the real library in worker children with hook-driven delays/triggers and GOMAXPROCS cycled over the part's list. After Wait: IsRunning false, exactly one terminal flag, unfinished bars aborted, each listener notified exactly once, one notifier value with the right set, Bar.Wait returned with settled flags. Non-trivial = the cancellation actually landed at its site (trigger fired / step reached) before the natural end. distinct = distinct interleaving signatures among the non-trivial scenarios; sites hit are listed under observed as site:<action>@<point>#<occurrence>",
+	"C15": "fault sites = k-th Fill of bar i, k-th extender call, k-th output Write, k-th terminal-size query (pty + dup2), error kinds custom / io.EOF / io.ErrUnexpectedEOF; cases = seeded scenarios (container config x bars x client programs x director; H(VERIF_SEED, property, part, index)) executed against the real library in worker children with hook-driven delays/triggers and GOMAXPROCS cycled over the part's list; other bars sit in width-sync columns the failing bar lacks, slow decorators. After the fault: Wait returns (certificate otherwise), error text exactly once in the debug output, no output write and no render cycle after the failing one, no bar running, notifier list. Non-trivial = a render cycle actually failed. distinct = distinct interleaving signatures among the non-trivial scenarios; sites hit are listed under observed as site:fault:<kind>#<k>",
+	"C16": "cases = seeded scenarios (container config x bars x client programs x director; H(VERIF_SEED, property, part, index)) executed against the real library in worker children with hook-driven delays/triggers and GOMAXPROCS cycled over the part's list; normal, cancel and error endings, pop, queued bars, n > q, abandoned manual-refresh channel; parts mixed / err / queue; in addition every worker child runs its 40 containers back to back in one process and compares the goroutine count before the first with the count after the last (key goroutine-growth). After Wait returned and the notifier was read, goroutine dumps are polled until no library frame remains; a library goroutine parked unchanged across 5 polls while nothing else runs is a leak. Non-trivial = the drain check was reached (scenario finished). distinct = distinct interleaving signatures",
+	"C17": "cases = seeded scenarios (container config x bars x client programs x director; H(VERIF_SEED, property, part, index)) executed against the real library in worker children with hook-driven delays/triggers and GOMAXPROCS cycled over the part's list; every order of {create predecessor, predecessor finishes, predecessor flushed, create successor(s), successor finishes}, 1-3 successors per predecessor, chains, pop mode; parts manual / mixed. Never shown together; a successor queued before the cycle of the predecessor's last frame appears in the very next frame at the predecessor's rank; a late successor appears in the first frame whose cycle began after its Add returned; Wait does not return before every bar is terminal. Non-trivial = a timely hand-over or a late successor was checked. distinct = distinct interleaving signatures among the non-trivial scenarios",
+	"C18": "cases = seeded scenarios (container config x bars x client programs x director; H(VERIF_SEED, property, part, index)) executed against the real library in worker children with hook-driven delays/triggers and GOMAXPROCS cycled over the part's list; pop-mode programs with bars finishing in any order and in the same cycle, extender rows, text in between, no-pop bars, queue-after, small ptys; parts mem / pty. The emulator's persisted region must gain exactly the final rows of the bars pop mode retires, each once, unchanged, in frame order; popped bars are the topmost rows of the frame that retires them. Non-trivial = at least one popped bar was found in the persisted region. distinct = distinct interleaving signatures among the non-trivial scenarios",
 	"C19": "cases = scripted under-layers: all 2^3 dynamic interface shapes of the wrapped value (Close, WriteTo/ReadFrom) x direction x moving-average decorator present or not (wrapped 0..3 deep) x total unknown / exact / exceeded / larger x container none / auto; scripts of 1..50 calls with 0-byte, short and full transfers, injected delays, an error (EOF, custom, short write) at a random position; non-trivial = at least one byte moved; distinct = distinct case tuples",
 	"C20": "cases = (value, unit system, verb/flag/precision, route: formatter type directly or through Counters/Total/Current/InvertedCurrent/speed decorators) over the full lattice of unit boundaries +-2 and half-way points plus seeded random int64 values; (current,total) pairs incl. > 2^57 for the percentage; durations on the carry-boundary lattice and random below 60 h for the four time styles (exact through a normaliser, time-based with an interval expectation); (n,duration) sample sequences incl. n<=0 and zero durations fed directly and through a bar with wrappers 0..3 deep; freeze probes. Printed strings are parsed back and compared in 300-bit arithmetic. Non-trivial = every case with a non-degenerate value; distinct = distinct case tuples",
 	"C09": "cases = sequential operation lists on one bar: ALL sequences of length 3 (thorough: also length 4) over a 20-letter alphabet (argument classes -1, 0, total-1, total, total+1, big) from initial totals {-5,0,1,10,2^62}, plus seeded random lists of up to 40 operations with int64 arguments (no overflowing sums) in non-refreshing, manual and auto containers; after every step Current/Completed/Aborted (manual: also the Statistics of a rendered frame) are compared with the reference machine; non-trivial = at least 2 steps compared; distinct = distinct (mode,total,ops)",
